@@ -152,6 +152,29 @@ impl Space {
         let mut h = 0u64;
         let mut first: Option<Outcome> = None;
         for form in [Form::Lit, Form::Var] {
+            // runs of two and three minus signs apply the operator that often
+            for run in 2..=3usize {
+                let mut e = exp.clone();
+                for _ in 1..run {
+                    e = match &e {
+                        Exp::Val(v) => refmodel::neg(v),
+                        other => other.clone(),
+                    };
+                }
+                let (src, binds): (String, Vec<(&str, V)>) = match form {
+                    Form::Lit => match a.lit() {
+                        // an int literal directly after a minus run may be read as one negative literal
+                        Some(l) if !matches!(a, V::Int(_)) || l.starts_with('(') => (format!("{}{}", "-".repeat(run), l), vec![]),
+                        _ => continue,
+                    },
+                    Form::Var => (format!("{}a", "-".repeat(run)), vec![("a", a.clone())]),
+                };
+                let got = real::eval(&src, &binds);
+                acc.eval();
+                if let Some(kind) = judge(&e, &got) {
+                    acc.violation(&format!("neg-run {} {}", a.type_name(), kind), json!({"src": src, "a": a.show()}), e.show(), got.show());
+                }
+            }
             let (src, binds): (String, Vec<(&str, V)>) = match form {
                 Form::Lit => match a.lit() {
                     Some(l) => (format!("-{}", l), vec![]),
@@ -251,6 +274,21 @@ fn run_chain(idx: u64, acc: &mut Acc) {
         } else {
             format!("{} {} ({} {} {})", txt[0], o1.sym(), txt[1], o2.sym(), txt[2])
         };
+        // the flat spelling groups the same way when both operators have the same precedence
+        let additive = |o: Arith| matches!(o, Arith::Add | Arith::Sub);
+        if left && additive(o1) == additive(o2) {
+            let flat = format!("{} {} {} {} {}", txt[0], o1.sym(), txt[1], o2.sym(), txt[2]);
+            let gf = real::eval(&flat, &binds);
+            acc.eval();
+            if let Some(kind) = judge(&exp, &gf) {
+                acc.violation(
+                    &format!("flat-chain {} then {} on {}x{}x{} {}", o1.sym(), o2.sym(), a.type_name(), b.type_name(), c.type_name(), kind),
+                    json!({"src": flat, "a": a.show(), "b": b.show(), "c": c.show()}),
+                    exp.show(),
+                    gf.show(),
+                );
+            }
+        }
         let got = real::eval(&src, &binds);
         acc.eval();
         acc.class(&got.class());
